@@ -4,3 +4,4 @@
 #define VH_W 16
 #include "vh_bits.inc"
 void (*const vh_bits_set_16)(const VhLine *) = op_bits_set_16;
+void (*const vh_bits_far_16)(const VhLine *) = op_bits_far_16;
